@@ -40,7 +40,7 @@ def plan(tier):
             "dev_shard": False, "min_nontrivial": 10,
             "min_counters": {"models_generated": 40, "daos_checked": 150, "columns_checked": 300,
                              "relationships_checked": 100, "determinism_pairs": 40, "permuted_pairs": 20,
-                             "models_with_the_enum_in_a_module_of_its_own": 8}}
+                             "models_with_the_enum_in_a_module_of_its_own": 8, "models_with_the_enum_inside_another_class": 4}}
 
 
 def setup(ctx):
@@ -69,6 +69,8 @@ def gen(rng, tier, ctx):
     rng.shuffle(perm)
     if rng.random() < 0.3:
         spec["enum_module"] = True
+    elif rng.random() < 0.25:
+        spec["enum_nested"] = True
     return {"spec": spec, "perm": perm, "profile": profile}
 
 
@@ -87,6 +89,9 @@ def witnesses():
         "no-builtin-field-unresolved-builtins": {"profile": "nouid", "perm": ["K1", "K0"], "spec": {
             "module": "gw_nobuiltin", "order": ["K0", "K1"], "profile": "orm", "classes": [
                 cl("K0", None, [f("f0_0", "opt_ref", "K1")]), cl("K1", None, [f("f1_0", "enum")])]}},
+        "nested-enum-referenced-by-bare-name": {"profile": "orm", "perm": ["K0"], "spec": {
+            "module": "gw_nestedenum", "order": ["K0"], "profile": "orm", "enum_nested": True, "classes": [
+                cl("K0", None, [f("uid", "int"), f("f0_0", "enum"), f("f0_1", "opt_enum")])]}},
     }
 
 
@@ -212,6 +217,7 @@ def run(spec_case, ctx):
             with open(os.path.join(workdir, modname + "_enum.py"), "w") as fh:
                 fh.write(modelgen.ENUM_MODULE_SOURCE)
             C["models_with_the_enum_in_a_module_of_its_own"] += 1
+        C["models_with_the_enum_inside_another_class"] += bool(spec.get("enum_nested") and not spec.get("enum_module"))
         out = run_driver(workdir, modname, spec["order"], 0)
         C["models_generated"] += 1
         key_hint = None
